@@ -422,6 +422,18 @@ def oracle(scn, S):
                 if out != j["out"]:
                     fail("C16:cli-content", "%s wrote %d bytes, the library %d; %s" % (name, len(out), len(j["out"]), lib))
                 S.count("agree_accept")
+                if run["tool"] == "xz" and run["single"] and j is not None and j["total_in"] < len(data):
+                    # "decoding stops exactly at the end of the first stream with the input position just past it": on a shared seekable
+                    # descriptor the next reader must find exactly the bytes that follow the first stream
+                    sh = '{ "$0" -dc -qQ --single-stream --format=' + run["format"] + ' >/dev/null; cat; } < "$1"'
+                    rc2, rest, err2 = base.run_cmd(["/bin/sh", "-c", sh, base.tool("xz"), path], env=base.clean_env())
+                    if rc2 is None:
+                        S.inconclusive_count("timeout")
+                    elif rest != data[j["total_in"]:]:
+                        fail("C16:single-stream-input-position", "%s on a shared descriptor: the next reader gets %d bytes, the first stream ends at %d of %d (so %d bytes follow it)"
+                             % (name, len(rest), j["total_in"], len(data), len(data) - j["total_in"]))
+                    else:
+                        S.count("single_stream_position_checked")
             else:
                 if rc == 0:
                     fail("C16:cli-accepts-invalid", "%s exit 0 (%d bytes) but the library does not accept the file; %s" % (name, len(out), lib))
